@@ -56,6 +56,12 @@ fn main() {
             }
             c12::run(seed, &tier, shard);
         }
+        "C15" => {
+            if shard == 0 {
+                witness::run_witnesses("C15");
+            }
+            c15::run(seed, &tier, shard);
+        }
         "C13" => {
             if shard == 0 {
                 witness::run_witnesses("C13");
